@@ -1,13 +1,456 @@
 package main
 
-// Extension slot D: request lines (goExecExtD) and generators (registered with regExtra) of one model extension.
+// Extension slot D (C16): the bufio machine per call against the real
+// bufio.Reader over scripted fragmenting/faulting readers, ClassifyStream on such
+// readers followed by draining the reader, and ClassifyEncryptedStreamAndMakeDecoder
+// against the model of the dispatcher.
+
+import (
+	"bufio"
+	"bytes"
+	"fmt"
+	"io"
+	"strings"
+
+	"github.com/keybase/saltpack"
+	"verifharness/internal/keys"
+	"verifharness/internal/prng"
+	"verifharness/internal/script"
+)
+
+// scriptReader delivers a script of reads: entries `<hex>` data, `<hex>!` data +
+// I/O error, `<hex>$` data + EOF; a delivery longer than the caller's buffer is
+// handed out over several calls (its condition with the last part); an
+// exhausted script reports EOF forever.  (Same semantics as Stream.srcRead.)
+type delivery struct {
+	d   []byte
+	err error
+}
+
+type scriptReader struct{ q []delivery }
+
+func parseScriptD(s string) []delivery {
+	var out []delivery
+	if s == "-" || s == "" {
+		return out
+	}
+	for _, e := range strings.Split(s, ",") {
+		var err error
+		if strings.HasSuffix(e, "!") {
+			err, e = script.ErrIO, e[:len(e)-1]
+		} else if strings.HasSuffix(e, "$") {
+			err, e = io.EOF, e[:len(e)-1]
+		}
+		out = append(out, delivery{unhex(e), err})
+	}
+	return out
+}
+
+func (s *scriptReader) Read(p []byte) (int, error) {
+	if len(s.q) == 0 {
+		return 0, io.EOF
+	}
+	h := s.q[0]
+	if len(h.d) <= len(p) {
+		copy(p, h.d)
+		s.q = s.q[1:]
+		return len(h.d), h.err
+	}
+	copy(p, h.d[:len(p)])
+	s.q[0].d = h.d[len(p):]
+	return len(p), nil
+}
+
+func condD(err error) string {
+	switch err {
+	case nil:
+		return "nil"
+	case io.EOF:
+		return "eof"
+	case bufio.ErrBufferFull:
+		return "bufferfull"
+	case io.ErrNoProgress:
+		return "noprogress"
+	case script.ErrIO, script.ErrScripted:
+		return "io-error"
+	}
+	return "other:" + strings.ReplaceAll(err.Error(), " ", "_")
+}
+
+func classifyAnswerD(arm bool, brand string, typ saltpack.MessageType, ver saltpack.Version, err error) string {
+	switch err {
+	case nil:
+		return fmt.Sprintf("ok armored=%s %s %d %d.%d", boolS(arm), keys.Hex([]byte(brand)), int(typ), ver.Major, ver.Minor)
+	case saltpack.ErrShortSliceOrBuffer:
+		return "short"
+	case saltpack.ErrNotASaltpackMessage:
+		return "not"
+	case io.EOF:
+		return "eof"
+	}
+	return "err:" + condD(err)
+}
+
+func dispatchAnswerD(source io.Reader, ring *keys.Ring, log *keys.Log, res saltpack.SymmetricKeyResolver) string {
+	plain, typ, mki, spk, isArm, _, ver, err := saltpack.ClassifyEncryptedStreamAndMakeDecoder(source, ring, res)
+	if typ == saltpack.MessageTypeUnknown {
+		return "fail " + script.Class(err)
+	}
+	cls := fmt.Sprintf("armored=%s type=%d ver=%d.%d", boolS(isArm), int(typ), ver.Major, ver.Minor)
+	kind, tail := "enc", "-"
+	if typ == saltpack.MessageTypeSigncryption {
+		kind, tail = "sc", "sender=-"
+	}
+	if err != nil {
+		return fmt.Sprintf("%s %s res %s rel=- calls=%s %s", kind, cls, script.Class(err), log.String(), tail)
+	}
+	rel, rerr := readAllCollect(plain, 4096)
+	if rerr == nil {
+		if kind == "enc" {
+			tail = mkiString(mki)
+		} else if spk == nil {
+			tail = "sender=anon"
+		} else {
+			tail = "sender=" + keys.Hex(spk.ToKID())
+		}
+	}
+	return fmt.Sprintf("%s %s res %s rel=%s calls=%s %s", kind, cls, script.Class(rerr), keys.Hex(rel), log.String(), tail)
+}
 
 func goExecExtD(t []string) (string, bool) {
 	switch t[0] {
+	case "bf.trace": // size ops script
+		rd := bufio.NewReaderSize(&scriptReader{parseScriptD(t[3])}, atoi(t[1]))
+		var tr []string
+		for _, op := range strings.Split(t[2], ",") {
+			n := atoi(op[1:])
+			if op[0] == 'p' {
+				b, err := rd.Peek(n)
+				tr = append(tr, keys.Hex(b)+":"+condD(err))
+			} else {
+				buf := make([]byte, n)
+				k, err := rd.Read(buf)
+				tr = append(tr, keys.Hex(buf[:k])+":"+condD(err))
+			}
+		}
+		return "ok " + strings.Join(tr, ","), true
+	case "bf.classify": // size cap script
+		rd := bufio.NewReaderSize(&scriptReader{parseScriptD(t[3])}, atoi(t[1]))
+		arm, brand, typ, ver, err := saltpack.ClassifyStream(rd)
+		ans := classifyAnswerD(arm, brand, typ, ver, err)
+		var rest []byte
+		buf := make([]byte, atoi(t[2]))
+		var end error
+		for i := 0; i < 1<<22; i++ {
+			k, e := rd.Read(buf)
+			rest = append(rest, buf[:k]...)
+			if e != nil {
+				end = e
+				break
+			}
+		}
+		return fmt.Sprintf("%s rest=%s end=%s", ans, keys.Hex(rest), condD(end)), true
+	case "bf.dispatch": // frag secrets ls lp ie lsig resolver bytes
+		log := &keys.Log{}
+		ring := parseRing(t[2], t[3], t[4], t[5], t[6], log)
+		var src io.Reader = bytes.NewReader(unhex(t[8]))
+		if t[1] != "whole" {
+			src = &fragReader{b: unhex(t[8]), mode: t[1], r: prng.New(uint64(len(t[8])))}
+		}
+		return dispatchAnswerD(src, ring, log, parseResolver(t[7])), true
+	case "bf.dispatchs": // cap secrets ls lp ie lsig resolver script
+		log := &keys.Log{}
+		ring := parseRing(t[2], t[3], t[4], t[5], t[6], log)
+		return dispatchAnswerD(&scriptReader{parseScriptD(t[8])}, ring, log, parseResolver(t[7])), true
 	}
 	return "", false
 }
 
+// dispatchCmp: the classification part exactly; the receiver part like every
+// receiver stream (resCmp); an armor-layer rejection of the model must be an
+// error of the implementation; two errors on armored input are not compared
+// further (the streaming armor decoder interleaves its checks differently).
+func dispatchCmp(g, m string) bool {
+	if g == m {
+		return true
+	}
+	gi, mi := strings.Index(g, " res "), strings.Index(m, " res ")
+	if strings.HasPrefix(m, "armorfail ") {
+		return gi >= 0 && !strings.Contains(g, " res ok ") && strings.HasSuffix(g[:gi], strings.TrimPrefix(m, "armorfail "))
+	}
+	if gi < 0 || mi < 0 || g[:gi] != m[:mi] {
+		return false
+	}
+	if strings.Contains(g[:gi], "armored=true") && !strings.Contains(g, " res ok ") && !strings.Contains(m, " res ok ") {
+		return true
+	}
+	return resCmp(g[gi+1:], m[mi+1:])
+}
+
+// scriptOf cuts b into deliveries: mode "one", "bytes", "rand", "eofdata"
+// (the last delivery carries EOF), "fault:<k>" (a transient I/O error after k bytes),
+// "faultdata:<k>" (the error arrives together with the k-th byte), "empty" (empty reads in between)
+func scriptOf(r *prng.R, b []byte, mode string) string {
+	var es []string
+	add := func(d []byte, suffix string) {
+		h := keys.Hex(d)
+		if len(d) == 0 {
+			h = "-"
+		}
+		es = append(es, h+suffix)
+	}
+	cut := func(b []byte, last string) {
+		for len(b) > 0 {
+			n := 1 + r.Intn(40)
+			if mode == "bytes" {
+				n = 1
+			}
+			if n > len(b) {
+				n = len(b)
+			}
+			s := ""
+			if n == len(b) {
+				s = last
+			}
+			add(b[:n], s)
+			if mode == "empty" && r.Intn(3) == 0 {
+				add(nil, "")
+			}
+			b = b[n:]
+		}
+	}
+	switch {
+	case mode == "one":
+		add(b, "")
+	case mode == "eofdata":
+		if len(b) == 0 {
+			add(nil, "$")
+		}
+		cut(b, "$")
+	case strings.HasPrefix(mode, "fault:"), strings.HasPrefix(mode, "faultdata:"):
+		k := atoi(mode[strings.Index(mode, ":")+1:])
+		if k > len(b) {
+			k = len(b)
+		}
+		if strings.HasPrefix(mode, "faultdata:") && k > 0 {
+			cut(b[:k], "!")
+		} else {
+			cut(b[:k], "")
+			add(nil, "!")
+		}
+		cut(b[k:], "")
+	default:
+		cut(b, "")
+	}
+	if len(es) == 0 {
+		return "-"
+	}
+	return strings.Join(es, ",")
+}
+
+func genExtD(ctx *Ctx, emit func(Case)) {
+	r := ctx.R.Fork()
+	corpus := classifyCorpus(r)
+	var small [][]byte // genuine binary and armored messages below 3 kB, plus junk
+	for _, c := range corpus {
+		if len(c.msg) > 3000 {
+			continue
+		}
+		small = append(small, c.msg)
+		arm, _ := saltpack.Armor62Seal(c.msg, armorTypeFor(c.mode), prng.Pick(r, "", "KB"))
+		small = append(small, []byte(arm), []byte(reflow(r, arm, 7)))
+	}
+	small = append(small, nil, []byte("BEGIN"), []byte("BEGIN SALTPACK ENCRYPTED MESSAGE."), r.Bytes(10), r.Bytes(30), bytes.Repeat([]byte("x "), 3000))
+
+	// --- the bufio machine, call by call
+	peeks := []int{0, 1, 15, 16, 17, 22, 23, 24, 64, 4095, 4096, 4097, 5000}
+	reads := []int{0, 1, 7, 16, 23, 100, 4096, 5000}
+	for k := 0; k < ctx.N(160, 3000); k++ {
+		size := prng.Pick(r, 0, 16, 17, 23, 64, 4096)
+		n := prng.Pick(r, 0, 1, 10, 30, 100, 5000)
+		var es []string
+		left := n
+		for left > 0 || len(es) == 0 {
+			c := 1 + r.Intn(prng.Pick(r, 5, 40, 40, 3000))
+			if c > left {
+				c = left
+			}
+			e := keys.Hex(r.Bytes(c))
+			if c == 0 {
+				e = "-"
+			}
+			switch r.Intn(12) {
+			case 0:
+				e += "!"
+			case 1:
+				e += "$"
+			case 2:
+				es = append(es, "-")
+			}
+			es = append(es, e)
+			left -= c
+			if c == 0 {
+				break
+			}
+		}
+		if r.Intn(8) == 0 { // more than 100 empty reads in a row: io.ErrNoProgress
+			var em []string
+			for i := 0; i < prng.Pick(r, 99, 100, 101); i++ {
+				em = append(em, "-")
+			}
+			es = append(append(es[:len(es)/2:len(es)/2], em...), es[len(es)/2:]...)
+		}
+		var ops []string
+		for i := 0; i < 2+r.Intn(10); i++ {
+			if r.Intn(2) == 0 {
+				ops = append(ops, fmt.Sprintf("p%d", peeks[r.Intn(len(peeks))]))
+			} else {
+				ops = append(ops, fmt.Sprintf("r%d", reads[r.Intn(len(reads))]))
+			}
+		}
+		line := fmt.Sprintf("bf.trace %d %s %s", size, strings.Join(ops, ","), strings.Join(es, ","))
+		out := goExec(line)
+		emit(Case{Stream: "bufio.calls", Line: line, GoOut: out, Branch: fmt.Sprintf("size=%d/n=%d/full=%v/noprog=%v/err=%v", size, n, strings.Contains(out, "bufferfull"), strings.Contains(out, "noprogress"), strings.Contains(out, "io-error"))})
+	}
+
+	// --- ClassifyStream on scripted readers, then the reader is drained
+	modes := []string{"one", "bytes", "rand", "eofdata", "empty", "fault", "faultdata"}
+	for k := 0; k < ctx.N(220, 4000); k++ {
+		b := small[r.Intn(len(small))]
+		mode := modes[r.Intn(len(modes))]
+		clean := !strings.HasPrefix(mode, "fault")
+		if !clean {
+			mode = fmt.Sprintf("%s:%d", mode, prng.Pick(r, 0, 1, 5, 22, 23, 60, r.Intn(len(b)+1), 4095, 4096, 4097))
+		}
+		size := prng.Pick(r, 16, 23, 64, 4096, 4096)
+		capR := prng.Pick(r, 1, 7, 4096, 10000)
+		if mode == "bytes" && len(b) > 400 {
+			capR = 4096
+		}
+		line := fmt.Sprintf("bf.classify %d %d %s", size, capR, scriptOf(r, b, mode))
+		out := goExec(line)
+		bb, cleanC := b, clean
+		emit(Case{Stream: "bufio.classify", Line: line, GoOut: out, Branch: fmt.Sprintf("%s/size=%d/%s", strings.Split(mode, ":")[0], size, strings.Fields(out)[0]),
+			Direct: func() string {
+				if cleanC && !strings.Contains(out, " rest="+hexOrDash(bb)+" end=eof") {
+					return fmt.Sprintf("ClassifyStream consumed or duplicated input: after classification the reader delivers %s, the source holds %d bytes", trunc(out, 120), len(bb))
+				}
+				return ""
+			}})
+	}
+
+	// --- the dispatcher against its model
+	frags := []string{"whole", "bytes", "random", "random-eof", "halving"}
+	for k := 0; k < ctx.N(36, 400); k++ {
+		n := prng.Pick(r, 0, 1, 50, 700)
+		var m specMsg
+		switch k % 6 {
+		case 0, 1:
+			m = specEnc(r, 1+k%2, specOpts{min: prng.Pick(r, 0, 3)}, n)
+		case 2, 3:
+			m = specSc(r, specOpts{}, n)
+		case 4:
+			m = specAtt(r, 1+(k/6)%2, specOpts{}, n)
+		default:
+			m = specDet(r, 1+(k/6)%2, specOpts{}, n)
+		}
+		t := strings.Fields(m.open(m.msg))
+		ringSpec, resolver := strings.Join([]string{"-", "std", "std", "std", "std"}, " "), "none"
+		switch m.mode {
+		case "enc":
+			ringSpec = strings.Join(t[2:7], " ")
+		case "sc":
+			ringSpec, resolver = strings.Join(t[1:6], " "), t[6]
+		}
+		typ := saltpack.MessageTypeEncryption
+		if m.mode == "att" {
+			typ = saltpack.MessageTypeAttachedSignature
+		} else if m.mode == "det" {
+			typ = saltpack.MessageTypeDetachedSignature
+		}
+		arm, _ := saltpack.Armor62Seal(m.msg, typ, prng.Pick(r, "", "KB"))
+		wrongFrame, _ := saltpack.Armor62Seal(m.msg, saltpack.MessageTypeAttachedSignature, "")
+		variants := map[string][]byte{
+			"binary": m.msg, "armored": []byte(arm), "reflowed": []byte(reflow(r, arm, 9)),
+			"bin-truncated": m.msg[:len(m.msg)*2/3], "arm-truncated": []byte(arm[:len(arm)*2/3]),
+			"bin-flipped": flipD(r, m.msg), "arm-flipped": flipD(r, []byte(arm)), "arm-wrong-frame": []byte(wrongFrame),
+			"bin-trailing": append(append([]byte(nil), m.msg...), 0xc0), "arm-trailing": []byte(arm + " x"),
+		}
+		for name, src := range variants {
+			if ctx.Quick && name != "binary" && name != "armored" && r.Intn(3) != 0 {
+				continue
+			}
+			frag := frags[r.Intn(len(frags))]
+			line := fmt.Sprintf("bf.dispatch %s %s %s %s", frag, ringSpec, resolver, keys.Hex(src))
+			out := goExec(line)
+			direct := ""
+			if name == "binary" && (m.mode == "enc" || m.mode == "sc") {
+				direct = goExec(m.open(m.msg))
+			}
+			mode, name := m.mode, name
+			emit(Case{Stream: "dispatch.model", Line: line, GoOut: out, Cmp: dispatchCmp,
+				Branch: fmt.Sprintf("%s/%s/%s/%s", mode, name, frag, strings.Fields(out)[0]+resClassD(out)),
+				Direct: func() string {
+					if (mode == "att" || mode == "det") && !strings.HasPrefix(out, "fail ") {
+						return fmt.Sprintf("ClassifyEncryptedStreamAndMakeDecoder does not refuse a %s message (%s): %s", mode, name, trunc(out, 100))
+					}
+					// same outcome as the direct entry point on the same bytes
+					if direct != "" {
+						i := strings.Index(out, " res ")
+						if i < 0 || !resCmp(out[i+1:], direct) {
+							return fmt.Sprintf("dispatcher and direct entry point differ on a %s message: %s vs %s", mode, trunc(out, 160), trunc(direct, 160))
+						}
+					}
+					return ""
+				}})
+		}
+		// the same through the bufio machine over a script (clean fragmentations, and a
+		// fault inside the classified range: refused as "not saltpack")
+		for _, smode := range []string{"rand", "eofdata", fmt.Sprintf("fault:%d", r.Intn(len(m.msg)+1))} {
+			src := m.msg
+			if r.Bool() {
+				src = []byte(arm)
+			}
+			if strings.HasPrefix(smode, "fault") && len(src) > 4096 {
+				continue
+			}
+			line := fmt.Sprintf("bf.dispatchs %d %s %s %s", prng.Pick(r, 1, 100, 4096), ringSpec, resolver, scriptOf(r, src, smode))
+			out := goExec(line)
+			emit(Case{Stream: "dispatch.machine", Line: line, GoOut: out, Cmp: dispatchCmp,
+				Branch: fmt.Sprintf("%s/%s/%s", m.mode, strings.Split(smode, ":")[0], strings.Fields(out)[0]+resClassD(out))})
+		}
+	}
+	// non-saltpack and short inputs
+	for k := 0; k < ctx.N(30, 300); k++ {
+		src := small[len(small)-6+r.Intn(6)]
+		if r.Intn(3) == 0 {
+			c := corpus[r.Intn(len(corpus))]
+			src = c.msg[:r.Intn(30)]
+		}
+		line := fmt.Sprintf("bf.dispatch %s - std std std std none %s", frags[r.Intn(len(frags))], hexOrDash(src))
+		out := goExec(line)
+		emit(Case{Stream: "dispatch.model", Line: line, GoOut: out, Cmp: dispatchCmp, Branch: "junk/" + strings.Join(strings.Fields(out)[:2], "-")})
+	}
+}
+
+func resClassD(out string) string {
+	if i := strings.Index(out, " res "); i >= 0 {
+		return "/" + strings.Fields(out[i+5:])[0]
+	}
+	if f := strings.Fields(out); len(f) > 1 {
+		return "/" + f[1]
+	}
+	return ""
+}
+
+func flipD(r *prng.R, b []byte) []byte {
+	c := append([]byte(nil), b...)
+	if len(c) > 0 {
+		c[r.Intn(len(c))] ^= 1 << uint(r.Intn(8))
+	}
+	return c
+}
+
 func init() {
-	// regExtra("Cnn", func(ctx *Ctx, emit func(Case)) { … })
+	regExtra("C16", genExtD)
 }
